@@ -11,9 +11,13 @@ RNorm(n, d) ==
       g == RGcd(RAbs(n), RAbs(d))
   IN IF n = 0 THEN <<0, 1>> ELSE <<(s * n) \div g, (s * d) \div g>>
 R(n) == <<n, 1>>
-RAdd(a, b) == RNorm(a[1] * b[2] + b[1] * a[2], a[2] * b[2])
-RSub(a, b) == RNorm(a[1] * b[2] - b[1] * a[2], a[2] * b[2])
-RMul(a, b) == RNorm(a[1] * b[1], a[2] * b[2])
+\* (additions over the lcm of the denominators and cross-cancelled products keep intermediates small)
+RAdd(a, b) == LET g == RGcd(a[2], b[2]) IN RNorm(a[1] * (b[2] \div g) + b[1] * (a[2] \div g), (a[2] \div g) * b[2])
+RSub(a, b) == LET g == RGcd(a[2], b[2]) IN RNorm(a[1] * (b[2] \div g) - b[1] * (a[2] \div g), (a[2] \div g) * b[2])
+RMul(a, b) == LET g1 == RGcd(RAbs(a[1]), b[2]) g2 == RGcd(RAbs(b[1]), a[2])
+                  h1 == IF g1 = 0 THEN 1 ELSE g1
+                  h2 == IF g2 = 0 THEN 1 ELSE g2
+              IN RNorm((a[1] \div h1) * (b[1] \div h2), (a[2] \div h2) * (b[2] \div h1))
 RDiv(a, b) == RNorm(a[1] * b[2], a[2] * b[1])
 RNeg(a) == <<-a[1], a[2]>>
 RLt(a, b) == a[1] * b[2] < b[1] * a[2]
